@@ -253,8 +253,10 @@ def sigma_filter(filename, region, step_size, box_size, shape, domask,
     barrier.wait()
 
     logging.debug("background subtraction")
-    data[0 + ymin - data_row_min: data.shape[0] -
-         (data_row_max - ymax), :] -= ibkg[ymin:ymax, :]
+    # (the boxes of the second pass reach half a box into the neighbouring
+    # stripes, whose background is complete now that all stripes have passed
+    # the barrier, so subtract it from every row that was loaded)
+    data -= ibkg[data_row_min:data_row_max, :]
     logging.debug(".. done ")
 
     # reset/recycle the vals array
